@@ -31,3 +31,32 @@ impl<F: Filter<f64, Output = f64>> Filter<Rat> for ViaF64<F> { type Output = Rat
 pub struct ViaF32<F>(pub F);
 impl<F: Filter<f32, Output = f32>> Filter<Rat> for ViaF32<F> { type Output = Rat; fn filter(&mut self, x: Rat) -> Rat { f64_exact(self.0.filter(x.to_f64() as f32) as f64).unwrap_or(Rat::int(i64::MAX / 16)) } }
 pub fn int_hist(rng: &mut Rng, len: usize, mag: i64) -> Vec<Rat> { let mut cur = rng.range(-mag, mag); (0..len).map(|_| { if rng.below(4) != 0 { cur = rng.range(-mag, mag); } Rat::int(cur) }).collect() }
+
+/// Entry points other than construction.  A spec with `via=reset|clonefrom` and `pre=<samples>` first feeds `pre` to the
+/// filter and then brings it back to its freshly constructed behaviour through `Reset::reset` / `Clone::clone_from(&fresh)`;
+/// only then does it see `xs`.  The case is judged exactly like a fresh run (that a reset / overwritten filter IS a fresh one
+/// is C12 / C20; the property's own clauses - first output, recurrence, hull - must hold on that path too).
+pub fn prep<F>(f: F, s: &Spec, stats: &mut Stats) -> F where F: Filter<Rat> + signalo_traits::Reset + Clone {
+    if !s.has("via") { return f; }
+    stats.bump(format!("via:{}", s.get("via")));
+    let fresh = f.clone();
+    let mut g = f;
+    for x in s.rats("pre") { let _ = catch(|| g.filter(x)); }
+    match s.get("via") { "reset" => g.reset(), "clonefrom" => { g.clone_from(&fresh); g } _ => g }
+}
+/// adds, for a share of the generated specs of the given kinds, copies that enter through reset / clone_from after a history
+pub fn with_entry_points(v: Vec<Spec>, rng: &mut Rng, kinds: &[&str], every: u64) -> Vec<Spec> {
+    let mut out = Vec::with_capacity(v.len() + v.len() / every as usize * 2 + 8);
+    let mut firsts: std::collections::BTreeSet<String> = Default::default();
+    for s in v {
+        let eligible = kinds.contains(&s.kind.as_str()) && !s.has("ty") && !s.has("v0") && !s.has("cov0") && !s.has("via") && s.has("xs") && !s.get("xs").is_empty();
+        let first = eligible && firsts.insert(s.kind.clone() + if s.get("xs").contains(',') { "+" } else { "" });
+        if eligible && (first || rng.below(every) == 0) {
+            let l = rng.range(1, 4) as usize;
+            let pre: Vec<Rat> = (0..l).map(|k| if k == 0 { Rat::int(rng.range(5, 9)) } else { Rat::new(rng.range(-11, 11) as i128, rng.range(1, 2) as i128) }).collect();
+            for via in ["reset", "clonefrom"] { out.push(s.clone().with("via", via).with("pre", join_rats(&pre))); }
+        }
+        out.push(s);
+    }
+    out
+}
